@@ -2762,6 +2762,189 @@ def check_exception_name_roundtrip(ck, R):
 
 
 
+# ---------------------------------------------------------------------------------------------
+# C02.R9  run-once needs ONE mutex per invocation for as long as anybody may still be using it
+#
+# Callers of one invocation serialise on the mutex the table hands out for (qualified name, argument hash).  If the
+# entry can leave the table while a caller that has looked it up is still waiting on it or running under it, the next
+# caller is handed a fresh mutex, does not wait, and runs the body side by side with the other one.
+# The table is located by role (the module-level mapping of runner_local whose values are, or hold, locks).  An entry
+# never leaving is the simplest way to satisfy the clause.  A keyed removal is accepted only under the protocol that
+# makes it safe: users are COUNTED WHILE THE TABLE LOCK IS HELD -- every critical section of the table lock in which
+# an entry is looked up / created also increments the entry's counter before the lock is given back, and the removal
+# sits in a critical section of the table lock that decrements that counter and is reached only when it is zero.
+# (A counter kept under the per-call mutex itself sees only the owner, not the callers queued on the mutex.)
+# ---------------------------------------------------------------------------------------------
+_LOCK_MAKERS = ("RLock", "Lock", "Semaphore", "BoundedSemaphore", "Condition")
+_MAPPING_MAKERS = ("defaultdict", "dict", "OrderedDict", "WeakValueDictionary", "WeakKeyDictionary")
+
+
+def _makes_lock(repo, mod, e, depth=0):
+    for c in ast.walk(e):
+        if not isinstance(c, ast.Call):
+            continue
+        nm = A.call_attr(c)
+        if nm in _LOCK_MAKERS:
+            return True
+        if depth < 2 and isinstance(c.func, ast.Name) and c.func.id in mod.classes:
+            if any(_makes_lock(repo, mod, st, depth + 1) for st in mod.classes[c.func.id].node.body):
+                return True
+    return False
+
+
+def invocation_mutex_table(ck, mod):
+    """(table name, names of the module's lock objects)"""
+    tables = []
+    for name, v in mod.assigns.items():
+        head = A.call_attr(v) if isinstance(v, ast.Call) else ("dict" if isinstance(v, ast.Dict) else None)
+        if head not in _MAPPING_MAKERS:
+            continue
+        locky = _makes_lock(ck.repo, mod, v)
+        if not locky:
+            for fi in mod.all_funcs():
+                for n in A.walk_body(fi.node):
+                    if isinstance(n, ast.Assign) and any(isinstance(t, ast.Subscript) and isinstance(t.value, ast.Name) and t.value.id == name for t in n.targets) \
+                            and _makes_lock(ck.repo, mod, n.value):
+                        locky = True
+                    elif isinstance(n, ast.Call) and A.call_attr(n) == "setdefault" and isinstance(A.call_recv(n), ast.Name) and A.call_recv(n).id == name \
+                            and len(n.args) == 2 and _makes_lock(ck.repo, mod, n.args[1]):
+                        locky = True
+        if locky:
+            tables.append(name)
+    ck.need(len(tables) == 1, "runner_local: the table of per-invocation mutexes is not evident (module-level mappings holding locks: %s)" % (tables or "none"))
+    locks = {name for name, v in mod.assigns.items() if isinstance(v, ast.Call) and A.call_attr(v) in ("RLock", "Lock")}
+    return tables[0], locks
+
+
+def _zero_test_counter(text, pol):
+    """attribute name c when the literal (text, polarity) says `<entry>.c` is zero, else None"""
+    try:
+        e = _parse(text)
+    except SyntaxError:
+        return None
+    if isinstance(e, ast.UnaryOp) and isinstance(e.op, ast.Not):
+        e, pol = e.operand, not pol
+    if isinstance(e, ast.Attribute):
+        return e.attr if not pol else None
+    if isinstance(e, ast.Compare) and len(e.ops) == 1:
+        l, op, r = e.left, e.ops[0], e.comparators[0]
+        if isinstance(l, ast.Constant) and isinstance(r, ast.Attribute):
+            mirror = {ast.Lt: ast.Gt, ast.Gt: ast.Lt, ast.LtE: ast.GtE, ast.GtE: ast.LtE}
+            l, r, op = r, l, mirror.get(type(op), type(op))()
+        if not (isinstance(l, ast.Attribute) and isinstance(r, ast.Constant) and isinstance(r.value, int) and not isinstance(r.value, bool)):
+            return None
+        v = r.value
+        zero_when_true = (isinstance(op, ast.Eq) and v == 0) or (isinstance(op, ast.LtE) and v == 0) or (isinstance(op, ast.Lt) and v == 1)
+        zero_when_false = (isinstance(op, ast.NotEq) and v == 0) or (isinstance(op, ast.Gt) and v == 0) or (isinstance(op, ast.GtE) and v == 1)
+        if (pol and zero_when_true) or (not pol and zero_when_false):
+            return l.attr
+    return None
+
+
+def _table_lock_with(fa, node, locks):
+    """the outermost `with <table lock>:` whose body contains `node`"""
+    out = None
+    q = fa.pm.get(node)
+    while q is not None:
+        if isinstance(q, (ast.With, ast.AsyncWith)) and any(isinstance(i.context_expr, ast.Name) and i.context_expr.id in locks for i in q.items):
+            out = q
+        q = fa.pm.get(q)
+    return out
+
+
+def _counted_removal(ck, mod, table, locks, fi, drop):
+    """None when the keyed removal `drop` follows the counted-users protocol, else what is wrong with it."""
+    fa = FA(ck, fi)
+    ids = fa.nodes(drop)
+    if not ids:
+        return None   # unreachable
+    region = _table_lock_with(fa, drop, locks)
+    if region is None:
+        return "the entry is removed without holding the table lock"
+    conds = fa.conditions(ids[0])
+    counters = None
+    for conj in (conds or [frozenset()]):
+        here = {c for c in (_zero_test_counter(t, p) for (t, p) in conj) if c}
+        counters = here if counters is None else (counters & here)
+    if not counters:
+        return "the removal is not reserved for the moment at which nobody uses the mutex (no count of its users is tested)"
+    for c in sorted(counters):
+        decs = [n for n in ast.walk(region) if isinstance(n, ast.AugAssign) and isinstance(n.op, ast.Sub) and isinstance(n.target, ast.Attribute) and n.target.attr == c]
+        dec_ids = fa.nodes_all(decs)
+        if not (dec_ids and fa.cfg.must_pass(dec_ids, ids[0])):
+            why = ("the count of users (`.%s`) is not given back in the critical section of the table lock that removes the entry: it is kept under the "
+                   "per-call mutex, so it only sees the caller that owns the mutex, not the callers that have looked it up and are queued on it" % c)
+            continue
+        # every hand-out of an entry registers the user before the table lock is given back
+        why = None
+        for fj in mod.all_funcs():
+            fb = FA(ck, fj) if fj is not fi else fa
+            for n in A.walk_body(fj.node):
+                site = None
+                if isinstance(n, ast.Subscript) and isinstance(n.value, ast.Name) and n.value.id == table and not isinstance(n.ctx, ast.Del):
+                    site = n
+                elif isinstance(n, ast.Call) and A.call_attr(n) in ("get", "setdefault", "__getitem__") and isinstance(A.call_recv(n), ast.Name) and A.call_recv(n).id == table:
+                    site = n
+                if site is None or not fb.nodes(site):
+                    continue
+                w = _table_lock_with(fb, site, locks)
+                if w is not None and w is region:
+                    continue   # the releasing section looking at its own entry
+                incs = [x for x in (ast.walk(w) if w is not None else []) if isinstance(x, ast.AugAssign) and isinstance(x.op, ast.Add)
+                        and isinstance(x.target, ast.Attribute) and x.target.attr == c]
+                inc_ids = fb.nodes_all(incs)
+                if not (inc_ids and all(fb.cfg.must_pass(inc_ids, fb.cfg.exit, start=i) for i in fb.nodes(site))):
+                    why = ("a caller that looks the mutex up (`%s`, %s) is not counted as a user (`.%s`) before the table lock is given back: while it is "
+                           "queued on the mutex the count does not include it" % (A.short(fb.stmt_of(site) or site, 50), fb.where(site), c))
+                    break
+            if why:
+                break
+        if why is None:
+            return None
+    return why
+
+
+def check_mutex_lifetime(ck, R):
+    ck.rule(R, "one mutex per invocation for as long as a caller may be using it: an entry of the per-invocation mutex table never leaves it, "
+               "or leaves it only when a count of its users, kept under the table lock, says that nobody has looked it up and not finished", 1)
+    mod = ck.repo.module("runner_local")
+    table, locks = invocation_mutex_table(ck, mod)
+    v = mod.assigns.get(table)
+    weak = isinstance(v, ast.Call) and "Weak" in (A.call_attr(v) or "")
+    problems = []
+    if weak:
+        problems.append((None, None, "it is a weak table: the mutex goes as soon as no caller holds a reference, and with it the serialisation of callers that arrive later"))
+    keyed_ok = 0
+    for fi in mod.all_funcs():
+        rebinds = any(isinstance(n, ast.Global) and table in n.names for n in A.walk_body(fi.node))
+        for n in A.walk_body(fi.node):
+            recv_is_table = isinstance(n, ast.Call) and isinstance(n.func, ast.Attribute) and isinstance(n.func.value, ast.Name) and n.func.value.id == table
+            if recv_is_table and n.func.attr in ("clear", "popitem"):
+                problems.append((fi, n, "`%s` empties it regardless of who is using the mutexes" % A.short(n, 40)))
+            elif rebinds and isinstance(n, (ast.Assign, ast.AugAssign, ast.AnnAssign)) and \
+                    any(isinstance(t, ast.Name) and t.id == table for t in (n.targets if isinstance(n, ast.Assign) else [n.target])):
+                problems.append((fi, n, "`%s` replaces the table regardless of who is using the mutexes" % A.short(n, 40)))
+            elif (recv_is_table and n.func.attr in ("pop", "__delitem__")) or \
+                    (isinstance(n, ast.Delete) and any(isinstance(t, ast.Subscript) and isinstance(t.value, ast.Name) and t.value.id == table for t in n.targets)):
+                why = _counted_removal(ck, mod, table, locks, fi, n)
+                if why is None:
+                    keyed_ok += 1
+                else:
+                    problems.append((fi, n, why))
+    ok = not problems
+    if ok:
+        msg = "the per-invocation mutex table (%s) only grows" % table if not keyed_ok else \
+            "an entry of the per-invocation mutex table (%s) is removed only when its count of users, kept under the table lock, is zero" % table
+        at = mod.relpath
+    else:
+        (fi, n, why) = problems[0]
+        at = A.loc(fi, n) if fi is not None else mod.relpath
+        msg = ("a per-invocation mutex can leave the table (%s) while a caller is still using it%s: %s. The next caller of the same invocation is handed a "
+               "fresh mutex, does not wait, and runs the body a second time side by side with the caller that was queued on the old one"
+               % (table, " (%s, `%s`)" % (fi.qual, A.short(n, 40)) if fi is not None else "", why))
+    ck.ob(R, "runner_local.py::mutex-table-entries-outlive-their-users", ok, msg, at)
+
+
 def check(ck):
     from .memo import check_new_memo_tables
     ck.run(check_new_memo_tables, ck, "C02.M1", ('runner_local', 'runner', 'storage_base', 'storage_filesystem', 'exception', 'base', 'metadata'))
@@ -2782,7 +2965,5 @@ def check(ck):
     from .c15 import check_slots
     ck.run(check_slots, ck, "C02.R8")
     # run-once needs one mutex per invocation for as long as a caller may hold it (shared with C09.R2)
-    from .c09 import check_mutex_table_stable
-    ck.rule("C02.R9", "the per-invocation mutex table never drops a mutex", 1)
-    ck.run(check_mutex_table_stable, ck, "C02.R9")
+    ck.run(check_mutex_lifetime, ck, "C02.R9")
     ck.run(check_forget_reaches_answers, ck, "C02.R10")
